@@ -19,7 +19,8 @@ inductive Check where
 deriving DecidableEq, Repr
 
 def Check.ofByte : Nat → Option Check
-  | 0 => some .none | 1 => some .crc32 | 4 => some .crc64 | 10 => some .sha256 | _ => none
+  | 0 => some .none | 1 => some .crc32 | 4 => some .crc64 | 10 => some .sha256
+  | _ => Option.none   -- NOT `none`: inside `Check.ofByte` that name resolves to `Check.none` (coerced by `some`)
 
 def Check.toByte : Check → Nat
   | .none => 0 | .crc32 => 1 | .crc64 => 4 | .sha256 => 10
